@@ -293,16 +293,14 @@ func (p *parser) newContinueStmt(pos plToken.Pos) *ast.Node {
 	})
 }
 
-func (p *parser) newForStmt(initExpr *ast.Node, condExpr *ast.Node, loopExpr *ast.Node, body *ast.BlockStmt) *ast.Node {
-	pos := p.yyParser.lval.item.PositionRange()
-
+func (p *parser) newForStmt(forTk Item, initExpr *ast.Node, condExpr *ast.Node, loopExpr *ast.Node, body *ast.BlockStmt) *ast.Node {
 	return ast.WrapForStmt(&ast.ForStmt{
 		Init: initExpr,
 		Loop: loopExpr,
 		Cond: condExpr,
 		Body: body,
 
-		ForPos: p.posCache.LnCol(pos.Start),
+		ForPos: p.posCache.LnCol(forTk.Pos),
 	})
 }
 
@@ -481,12 +479,10 @@ func (p *parser) newArithmeticExpr(l, r *ast.Node, op Item) *ast.Node {
 }
 
 func (p *parser) newAttrExpr(obj, attr *ast.Node) *ast.Node {
-	pos := p.yyParser.lval.item.PositionRange()
-
 	return ast.WrapAttrExpr(&ast.AttrExpr{
 		Obj:   obj,
 		Attr:  attr,
-		Start: p.posCache.LnCol(pos.Start),
+		Start: ast.NodeStartPos(obj),
 	})
 }
 
